@@ -174,7 +174,7 @@ Value& MemberCONCATExpression::value(Context& ctx) const
       case Type::INTEGER:
         if (a0_type == Type::NUMERIC)
         {
-          rv->push_back(a0.isNull() ? Value(Value::type_integer) : Value(Integer(*a0.numeric())));
+          rv->push_back(a0.isNull() ? Value(Value::type_integer) : Value(Value::toInteger(*a0.numeric())));
           return val;
         }
         else if (a0.type() == Type::NO_TYPE)
